@@ -90,6 +90,12 @@ prop("C12", engine="wire", level="exploration", technique="seeded generation of 
      text="Every constructed message keeps all observable fields through both encodings and classifies as exactly one kind; ToNet bytes equal the schema's DAG-CBOR map byte for byte; any key order decodes to the same message; Accepted == (err==nil && result.Accepted); truncated / corrupted / arbitrary input yields an error or the original message, never a panic and never a message without a body.",
      note="mostly input generation (said plainly); level exploration")
 
+prop("C15", engine="netunit", level="exploration", technique="deterministic simulation of the real libp2p network layer on a simulated host: scripted stream-open outcomes (ok / fail / block until timeout), injected write failures, context cancellation at a tape-chosen instant, raw inbound byte streams with short reads",
+     rule="one evaluation = one seeded run of either (send) SendMessage of a generated message under random retry parameters (1-6 attempts, back-off range, open timeout), a random open script, an optional write failure at the k-th write and an optional cancellation instant, or (inbound) a raw stream of 0-3 well-formed messages of all kinds optionally followed/interrupted by a malformed item (junk, wrong-shape CBOR, null bodies, truncated message), written in tape-chosen pieces and read with tape-chosen chunking; non-trivial = every run; distinct = schedule hash",
+     probes=["retried", "sent-ok", "cancelled-in-flight", "write-failed", "malformed-stream", "several-messages-on-one-stream"], real=["network/libp2p_impl.go (openStream retry/back-off, SendMessage, handleNewStream dispatch)", "jpillora/backoff", "message codecs"], stubs=["libp2p host/stream -> SimHost/SimStream", "Receiver -> recording double", "clock -> fake clock (back-off and open timeouts cost nothing)"], assumptions=["back-off jitter comes from math/rand seeded from the tape (godebug randseednop=0)"],
+     text="Stream-open attempts <= configured; SendMessage returns nil iff the last attempt opened a stream and no write failed, and then the receiver's handler for that kind saw the message exactly once from the right peer; never delivered on error; returns at the very instant of cancellation; never gives up early; a failed write resets the stream and is reported. Inbound: every well-formed message before a malformed part is dispatched once, in order, to the right handler with the connection's remote peer; a malformed stream is reset and reported exactly once; nothing is dispatched for the malformed part.",
+     note="")
+
 ORDER = ["C%02d" % i for i in range(1, 21)]
 PENDING = {pid: "check under construction in this session (engine not yet registered); not claimed until its quick command runs clean" for pid in ORDER if pid not in P}
 
@@ -132,6 +138,7 @@ def main():
             {"name": "fsmsim", "path": "sim/fsmsim.go", "serves_properties": ["C02", "C03", "C06", "C07", "C08", "C09", "C11", "C17", "C19"], "kind_free_text": "real channels FSM stack on SimDisk under the simrt baton scheduler"},
             {"name": "monsim", "path": "sim/monsim.go", "serves_properties": ["C14"], "kind_free_text": "real channel monitor against a recording manager double on the fake clock"},
             {"name": "wire", "path": "sim/wire.go", "serves_properties": ["C12"], "kind_free_text": "message codecs under generated inputs and stream faults, reference encoder from the schema"},
+            {"name": "netunit", "path": "sim/netunit.go", "serves_properties": ["C15"], "kind_free_text": "real network layer on SimHost with scripted faults"},
             {"name": "netsim", "path": "sim/netscen.go", "serves_properties": ["C01", "C02", "C04", "C09", "C10", "C11", "C19", "C20"], "kind_free_text": "two real managers over SimHost/SimGraphsync/SimDisk under the simrt baton scheduler, with fault injection"},
         ],
         "checks": checks,
